@@ -25,7 +25,7 @@ TRUSTED = [
 	'Headers.append / pop and the element parsing of the Trailer field are the models of C08/C09 (tied there); zlib content codings are excluded (the property speaks of messages without a content coding)',
 ]
 ASSUMPTIONS = ['F6: an HTTP/1.0 message carrying Transfer-Encoding: chunked is framed by Content-Length and delivered still advertising chunked (recorded finding)']
-RULE = ('the full matrix Content-Length in {absent, correct, too small, too large, repeated, signed, non-numeric, spaced} x Transfer-Encoding in {absent, chunked in any letter case, unknown, list} x HTTP/1.0, 1.1 '
+RULE = ('fed in one call, in halves, octet by octet and line by line (cut after each CRLF, and one octet into the next line); the full matrix Content-Length in {absent, correct, too small, too large, repeated, signed, non-numeric, spaced} x Transfer-Encoding in {absent, chunked in any letter case, unknown, list} x HTTP/1.0, 1.1 '
 	'x trailer sections with announced, unannounced, forbidden and repeated fields, for requests and responses, small bodies exhaustively; non-trivial = delivered; distinct by canonical outcome')
 
 
@@ -63,7 +63,7 @@ def cases(rng, tier):
 						for th, tr in (trs if te else trs[:1]):
 							if tier == 'quick' and rng.random() > 0.12:
 								continue
-							yield ('m', side, version, cl, te, body, th, tr, rng.choice((0, 1, 2)))
+							yield ('m', side, version, cl, te, body, th, tr, rng.choice((0, 1, 2, 3, 4, 5)))
 
 
 def search(rng, res):
@@ -83,8 +83,22 @@ def frags(case, s):
 	mode = case[-1]
 	if mode == 0:
 		return [s]
-	k = len(s) // 2
-	return [s[:k], s[k:]]
+	if mode in (1, 2):
+		k = len(s) // 2
+		return [s[:k], s[k:]]
+	if mode == 3:
+		return [s[i:i + 1] for i in range(len(s))]
+	# line by line: after every CRLF (mode 5), or one octet into the following line (mode 4)
+	out, pos = [], 0
+	while True:
+		i = s.find(b'\r\n', pos)
+		if i < 0:
+			break
+		j = min(len(s), i + 2 + (1 if mode == 4 else 0))
+		out.append(s[pos:j])
+		pos = j
+	out.append(s[pos:])
+	return out
 
 
 def model_lines(case):
